@@ -7,7 +7,7 @@ open PyElf PyElf.Model.SigCache
 
 theorem inv_init {M : Type} (scan : M × Option Err) : Inv scan (St.init : St M) := Or.inl rfl
 
-theorem step_inv {M A : Type} (scan : M × Option Err) (look : M → Int → R A) (st : St M) (sig : Int)
+theorem step_inv {M Q A : Type} (scan : M × Option Err) (look : M → Q → R A) (st : St M) (sig : Q)
     (h : Inv scan st) : Inv scan (step scan look st sig).2 := by
   unfold step
   rcases h with h | ⟨h1, h2⟩
@@ -18,7 +18,7 @@ theorem step_inv {M A : Type} (scan : M × Option Err) (look : M → Int → R A
   · rw [h2]
     exact Or.inr ⟨h1, h2⟩
 
-theorem step_answer {M A : Type} (scan : M × Option Err) (look : M → Int → R A) (st : St M) (sig : Int)
+theorem step_answer {M Q A : Type} (scan : M × Option Err) (look : M → Q → R A) (st : St M) (sig : Q)
     (h : Inv scan st) : (step scan look st sig).1 = stateless scan look sig := by
   unfold step stateless
   rcases h with h | ⟨h1, h2⟩
@@ -28,8 +28,8 @@ theorem step_answer {M A : Type} (scan : M × Option Err) (look : M → Int → 
     | none => rfl
   · rw [h2, h1]
 
-theorem run_answers {M A : Type} (scan : M × Option Err) (look : M → Int → R A) :
-    ∀ (sigs : List Int) (st : St M), Inv scan st →
+theorem run_answers {M Q A : Type} (scan : M × Option Err) (look : M → Q → R A) :
+    ∀ (sigs : List Q) (st : St M), Inv scan st →
       (run scan look st sigs).1 = sigs.map (stateless scan look) ∧ Inv scan (run scan look st sigs).2 := by
   intro sigs
   induction sigs with
@@ -43,15 +43,15 @@ theorem run_answers {M A : Type} (scan : M × Option Err) (look : M → Int → 
     exact ⟨by rw [ha, h1], h2⟩
 
 /-- a published map stays published -/
-theorem run_some {M A : Type} (scan : M × Option Err) (look : M → Int → R A) :
-    ∀ (sigs : List Int) (m : M), (run scan look ⟨some m⟩ sigs).2.map = some m := by
+theorem run_some {M Q A : Type} (scan : M × Option Err) (look : M → Q → R A) :
+    ∀ (sigs : List Q) (m : M), (run scan look ⟨some m⟩ sigs).2.map = some m := by
   intro sigs
   induction sigs with
   | nil => intro m; rfl
   | cons s rest ih => intro m; simp only [run, step]; exact ih m
 
 /-- the map is published exactly when at least one lookup happened and the scan completes -/
-theorem run_published {M A : Type} (scan : M × Option Err) (look : M → Int → R A) (sigs : List Int) :
+theorem run_published {M Q A : Type} (scan : M × Option Err) (look : M → Q → R A) (sigs : List Q) :
     (run scan look St.init sigs).2.map.isSome = (!sigs.isEmpty && scan.2.isNone) := by
   induction sigs with
   | nil => rfl
